@@ -43,6 +43,11 @@ var osSwap = map[string]bool{
 	"github.com/gotd/td/session/storage_file.go": true,
 }
 
+// packages in which only a named hook is inserted (no scheduling rewrite).
+var hookOnly = map[string]bool{
+	"github.com/gotd/td/crypto": true,
+}
+
 type pkgInfo struct {
 	ImportPath string
 	Dir        string
@@ -238,7 +243,16 @@ func instrumentPackage(tp *pkgInfo, pkgs map[string]*pkgInfo, outDir string, ove
 		name := tp.GoFiles[i]
 		c := &fileCtx{pkg: tp.ImportPath, fset: fset, info: info, file: af, ordinals: ordinals,
 			commRecv: map[ast.Node]bool{}, rangeK: map[*ast.RangeStmt]string{}, recv2: map[*ast.UnaryExpr]bool{}}
-		src := c.rewrite(osSwap[tp.ImportPath+"/"+name])
+		var src []byte
+		if hookOnly[tp.ImportPath] {
+			// only the randomness seam: crypto.DefaultRand() consults the simulation
+			src = c.hookDefaultRand()
+			if src == nil {
+				continue
+			}
+		} else {
+			src = c.rewrite(osSwap[tp.ImportPath+"/"+name])
+		}
 		dst := filepath.Join(outDir, strings.ReplaceAll(tp.ImportPath, "/", "_")+"__"+name)
 		must(os.WriteFile(dst, src, 0o644))
 		overlay[filepath.Join(tp.Dir, name)] = dst
@@ -440,6 +454,60 @@ func (c *fileCtx) rewrite(swapOS bool) []byte {
 	if c.usedRT {
 		astutil.AddNamedImport(c.fset, f, "simrt", simrtPath)
 	}
+	var buf bytes.Buffer
+	buf.WriteString(header)
+	if err := format.Node(&buf, c.fset, f); err != nil {
+		fail("%s: print: %v", c.fset.Position(f.Package).Filename, err)
+	}
+	return buf.Bytes()
+}
+
+// hookDefaultRand prepends `if r := simrt.DefaultRand(); r != nil { return r }`
+// to func DefaultRand() io.Reader, so that code without a randomness seam
+// (e.g. the padded intermediate codec) draws from the run's tape. Returns nil
+// if the file does not declare DefaultRand.
+func (c *fileCtx) hookDefaultRand() []byte {
+	f := c.file
+	found := false
+	for _, d := range f.Decls {
+		fd, ok := d.(*ast.FuncDecl)
+		if !ok || fd.Recv != nil || fd.Name.Name != "DefaultRand" || fd.Body == nil {
+			continue
+		}
+		found = true
+		r := ast.NewIdent("_simr")
+		hook := &ast.IfStmt{
+			Init: &ast.AssignStmt{Lhs: []ast.Expr{r}, Tok: token.DEFINE, Rhs: []ast.Expr{call(sel("simrt", "DefaultRand"))}},
+			Cond: &ast.BinaryExpr{X: r, Op: token.NEQ, Y: ast.NewIdent("nil")},
+			Body: &ast.BlockStmt{List: []ast.Stmt{&ast.ReturnStmt{Results: []ast.Expr{r}}}},
+		}
+		fd.Body.List = append([]ast.Stmt{hook}, fd.Body.List...)
+	}
+	if !found {
+		return nil
+	}
+	var header string
+	for _, cg := range f.Comments {
+		if cg.Pos() > f.Package {
+			break
+		}
+		for _, cm := range cg.List {
+			if strings.HasPrefix(cm.Text, "//go:build") {
+				header = cm.Text + "\n\n"
+			}
+		}
+	}
+	f.Comments = nil
+	f.Doc = nil
+	for _, d := range f.Decls {
+		switch x := d.(type) {
+		case *ast.FuncDecl:
+			x.Doc = nil
+		case *ast.GenDecl:
+			x.Doc = nil
+		}
+	}
+	astutil.AddNamedImport(c.fset, f, "simrt", simrtPath)
 	var buf bytes.Buffer
 	buf.WriteString(header)
 	if err := format.Node(&buf, c.fset, f); err != nil {
